@@ -78,51 +78,51 @@ def reallocStr (b : Bool) : String := if b then "realloc" else "borrow"
 
 def Op.str : Op → String
   | .scalar s => s.str
-  | .load k o => k.str ++ ":" ++ o.str
-  | .store k o => k.str ++ ":" ++ o.str
-  | .listCanonLower e r => "ListCanonLower:" ++ e.str ++ ":" ++ reallocStr r
-  | .stringLower r => "StringLower:" ++ reallocStr r
-  | .listLower e r => "ListLower:" ++ e.str ++ ":" ++ reallocStr r
-  | .listCanonLift e => "ListCanonLift:" ++ e.str
+  | .load k o => k.str ++ " " ++ o.str
+  | .store k o => k.str ++ " " ++ o.str
+  | .listCanonLower e r => "ListCanonLower " ++ e.str ++ " " ++ reallocStr r
+  | .stringLower r => "StringLower " ++ reallocStr r
+  | .listLower e r => "ListLower " ++ e.str ++ " " ++ reallocStr r
+  | .listCanonLift e => "ListCanonLift " ++ e.str
   | .stringLift => "StringLift"
-  | .listLift e => "ListLift:" ++ e.str
-  | .mapLower k v r => "MapLower:" ++ k.str ++ ":" ++ v.str ++ ":" ++ reallocStr r
-  | .mapLift k v => "MapLift:" ++ k.str ++ ":" ++ v.str
-  | .flistLift e n => "FixedLengthListLift:" ++ e.str ++ ":" ++ toString n
-  | .flistLower e n => "FixedLengthListLower:" ++ e.str ++ ":" ++ toString n
-  | .flistLowerMem e n => "FixedLengthListLowerToMemory:" ++ e.str ++ ":" ++ toString n
-  | .flistLiftMem e n => "FixedLengthListLiftFromMemory:" ++ e.str ++ ":" ++ toString n
-  | .recordLower n => "RecordLower:" ++ toString n
-  | .recordLift n => "RecordLift:" ++ toString n
-  | .tupleLower n => "TupleLower:" ++ toString n
-  | .tupleLift n => "TupleLift:" ++ toString n
-  | .handleLower o => "HandleLower:" ++ (if o then "own" else "borrow")
-  | .handleLift o => "HandleLift:" ++ (if o then "own" else "borrow")
+  | .listLift e => "ListLift " ++ e.str
+  | .mapLower k v r => "MapLower " ++ k.str ++ " " ++ v.str ++ " " ++ reallocStr r
+  | .mapLift k v => "MapLift " ++ k.str ++ " " ++ v.str
+  | .flistLift e n => "FixedLengthListLift " ++ e.str ++ " " ++ toString n
+  | .flistLower e n => "FixedLengthListLower " ++ e.str ++ " " ++ toString n
+  | .flistLowerMem e n => "FixedLengthListLowerToMemory " ++ e.str ++ " " ++ toString n
+  | .flistLiftMem e n => "FixedLengthListLiftFromMemory " ++ e.str ++ " " ++ toString n
+  | .recordLower n => "RecordLower " ++ toString n
+  | .recordLift n => "RecordLift " ++ toString n
+  | .tupleLower n => "TupleLower " ++ toString n
+  | .tupleLift n => "TupleLift " ++ toString n
+  | .handleLower o => "HandleLower " ++ (if o then "own" else "borrow")
+  | .handleLift o => "HandleLift " ++ (if o then "own" else "borrow")
   | .futureLower => "FutureLower" | .futureLift => "FutureLift"
   | .streamLower => "StreamLower" | .streamLift => "StreamLift"
   | .errLower => "ErrorContextLower" | .errLift => "ErrorContextLift"
-  | .flagsLower n => "FlagsLower:" ++ toString n
-  | .flagsLift n => "FlagsLift:" ++ toString n
-  | .variantLower n rs => "VariantLower:" ++ toString n ++ ":" ++ coreTysStr rs
-  | .variantLift n => "VariantLift:" ++ toString n
-  | .enumLower n => "EnumLower:" ++ toString n
-  | .enumLift n => "EnumLift:" ++ toString n
-  | .optionLower rs => "OptionLower:" ++ coreTysStr rs
+  | .flagsLower n => "FlagsLower " ++ toString n
+  | .flagsLift n => "FlagsLift " ++ toString n
+  | .variantLower n rs => "VariantLower " ++ toString n ++ " " ++ coreTysStr rs
+  | .variantLift n => "VariantLift " ++ toString n
+  | .enumLower n => "EnumLower " ++ toString n
+  | .enumLift n => "EnumLift " ++ toString n
+  | .optionLower rs => "OptionLower " ++ coreTysStr rs
   | .optionLift => "OptionLift"
-  | .resultLower rs => "ResultLower:" ++ coreTysStr rs
+  | .resultLower rs => "ResultLower " ++ coreTysStr rs
   | .resultLift => "ResultLift"
-  | .callWasm ps rs => "CallWasm:" ++ coreTysStr ps ++ ":" ++ coreTysStr rs
-  | .callInterface np nr a => "CallInterface:" ++ toString np ++ ":" ++ toString nr ++ ":" ++ (if a then "async" else "sync")
-  | .ret n => "Return:" ++ toString n
-  | .malloc s a => "Malloc:" ++ s.str ++ ":" ++ a.str
-  | .dealloc s a => "GuestDeallocate:" ++ s.str ++ ":" ++ a.str
+  | .callWasm ps rs => "CallWasm " ++ coreTysStr ps ++ " " ++ coreTysStr rs
+  | .callInterface np nr a => "CallInterface " ++ toString np ++ " " ++ toString nr ++ " " ++ (if a then "async" else "sync")
+  | .ret n => "Return " ++ toString n
+  | .malloc s a => "Malloc " ++ s.str ++ " " ++ a.str
+  | .dealloc s a => "GuestDeallocate " ++ s.str ++ " " ++ a.str
   | .deallocString => "GuestDeallocateString"
-  | .deallocList e => "GuestDeallocateList:" ++ e.str
-  | .deallocMap k v => "GuestDeallocateMap:" ++ k.str ++ ":" ++ v.str
-  | .deallocVariant n => "GuestDeallocateVariant:" ++ toString n
-  | .dropHandle t => "DropHandle:" ++ t.str
-  | .asyncTaskReturn ps => "AsyncTaskReturn:" ++ coreTysStr ps
-  | .flush n => "Flush:" ++ toString n
+  | .deallocList e => "GuestDeallocateList " ++ e.str
+  | .deallocMap k v => "GuestDeallocateMap " ++ k.str ++ " " ++ v.str
+  | .deallocVariant n => "GuestDeallocateVariant " ++ toString n
+  | .dropHandle t => "DropHandle " ++ t.str
+  | .asyncTaskReturn ps => "AsyncTaskReturn " ++ coreTysStr ps
+  | .flush n => "Flush " ++ toString n
 
 /-- number of results (`Instruction::results_len`). -/
 def Op.nres : Op → Nat
